@@ -21,6 +21,7 @@ def run(chk, replay=None, prop="C03"):
         if count[0] % 5 == 3: return buffer_cfg(rnd)
         if count[0] % 5 == 1: return chain_cfg(rnd)
         if count[0] % 5 == 4: return buffer_skip_cfg(rnd)
+        if count[0] % 5 == 0: return blocking_far_cfg(rnd)
         return al.gen_cfg(rnd, max_nodes=max_nodes)
     graphs = al.async_suite(chk, n, variants, max_nodes=4 if quick else 5, model_seeds=(1, 2), gen=gen)
     evaluate(chk, graphs, variants, prop)
@@ -70,6 +71,10 @@ def evaluate(chk, graphs, variants, prop):
                     if vs: break     # already explained by a property violation
                     # the model satisfies the theorems; a trace that differs from it without violating a clause we can
                     # evaluate is reported as a broken correspondence
+                    if prop == "C04" and "field ts_start" in d:
+                        # C04 is the start law itself: for this configuration and these delay streams the law (proved for the model: start_is_max,
+                        # never_early, frequency_drift, blocking counts) gives exactly one start time for every step - the model's
+                        chk.violation("start-differs-from-law", f"{d} (model = the rate / phase / delay / scheduling law evaluated for this configuration)", case); break
                     chk.broke("correspondence:M1-vs-AsyncGraph", f"{d} | cfg={cfg}"); break
             # the model itself must satisfy the clauses (self-test of checker and model; a failure here is ours)
     return
@@ -104,6 +109,23 @@ def buffer_skip_cfg(rnd):
     conns = {"n0>n1": dict(out="n0", **{"in": "n1"}, blocking=rnd.random() < 0.5, skip=False, jitter="LATEST", window=rnd.choice([1, 2]), exp=e01, delays=[rnd.choice([0, 1])]),
              "n1>n0": dict(out="n1", **{"in": "n0"}, blocking=False, skip=True, jitter="BUFFER", window=rnd.choice([1, 2, 3]), exp=ec, delays=[0])}
     return dict(nodes=nodes, conns=conns, sup=rnd.choice(["n0", "n1"]), steps=rnd.choice([8, 10]))
+
+
+def blocking_far_cfg(rnd):
+    """a blocking connection whose declared delay is longer than a sender period plus a receiver period (the receiver's phase lies more than two
+    periods after the sender's), with simulated delays that are sometimes later than declared: the phase-determined counts of the FIRST receiver steps
+    include several sender ticks, and the arrival of the last of them - not the schedule - sets the start time"""
+    Pp = rnd.choice([2, 4, 8]); Pc = rnd.choice([2, 4, 8]); e = Pp + Pc + rnd.choice([0, 1, 2, Pp])
+    nodes = {"n0": dict(nid=0, period=Pp, exp=rnd.choice([0, 1]), delays=rnd.choice([[1], [0, 1], [1, 2]]), advance=False, sched="FREQ"),
+             "n1": dict(nid=1, period=Pc, exp=rnd.choice([0, 1]), delays=rnd.choice([[1], [0, 1]]), advance=rnd.random() < 0.3, sched=rnd.choice(["FREQ", "PHASE"]))}
+    conns = {"n0>n1": dict(out="n0", **{"in": "n1"}, blocking=True, skip=False, jitter="LATEST", window=rnd.choice([1, 2, 3]), exp=e,
+                           delays=rnd.choice([[e], [e, e + 2], [e + 3, e - 1, e], [e + Pp, e]]))}
+    sup = "n1"
+    if rnd.random() < 0.4:
+        nodes["n2"] = dict(nid=2, period=Pc, exp=1, delays=[1], advance=False, sched="FREQ")
+        conns["n1>n2"] = dict(out="n1", **{"in": "n2"}, blocking=rnd.random() < 0.5, skip=False, jitter="LATEST", window=1, exp=1, delays=[1, 0])
+        sup = rnd.choice(["n1", "n2"])
+    return dict(nodes=nodes, conns=conns, sup=sup, steps=rnd.choice([6, 8]))
 
 
 def chain_cfg(rnd):
@@ -143,7 +165,10 @@ def second_episode(chk, G, r, prop="C04"):
     for sig, det in vs[:2]: chk.violation(sig + "(after-set_delay)", f"second episode after set_delay(delay=...): {det}", case)
     m = al.run_model([(cfg2, nph, cph, al.limits_of(cfg2, ep), 5)])[0]
     d = al.compare_episode(cfg2, ep, m)
-    if d and not vs: chk.broke("correspondence:M1-vs-AsyncGraph(after-set_delay)", d)
+    if d and not vs:
+        if prop == "C04" and "field ts_start" in d:
+            chk.violation("start-differs-from-law(after-set_delay)", f"{d} (model = the start law evaluated with the phases in force after set_delay)", case)
+        else: chk.broke("correspondence:M1-vs-AsyncGraph(after-set_delay)", d)
 
 
 def tie_features(cfg, ep):
